@@ -114,6 +114,8 @@ pub struct Swarm {
     pub unwind_permille: u64,
     /// in this run worker threads are spawned with a small stack (see ops::SMALL_STACK_BYTES)
     pub small_stack: bool,
+    /// in this run the process's panic hook itself calls the library (a logging hook that formats numbers)
+    pub hook_calls: bool,
     pub weights: [u64; 7],
     pub small: bool,
 }
@@ -283,6 +285,7 @@ pub fn swarm(seed: u64, focus: &str, flags: &GenFlags) -> Swarm {
             0
         },
         small_stack: faults && r.chance(1, 4),
+        hook_calls: faults && r.chance(1, 2),
         nan_custom_permille: match focus {
             "C15" | "C17" => 60,
             _ => 8,
@@ -1276,10 +1279,35 @@ pub fn gen_op(r: &mut Rng, sw: &Swarm) -> Op {
                     *r.pick(&cands)
                 };
                 let ty = fty(r);
+                // one write in six is of an integer below 2^53 / 2^24 (every radix must write those exactly)
+                let bits = if r.chance(1, 6) {
+                    let neg = r.chance(1, 2);
+                    match ty {
+                        FloatTy::F64 => {
+                            let v = ((r.next_u64() >> r.below(64)) % (1u64 << 53)) as f64;
+                            (if neg { -v } else { v }).to_bits()
+                        },
+                        FloatTy::F32 => {
+                            let v = ((r.next_u64() >> r.below(64)) % (1u64 << 24)) as f32;
+                            (if neg { -v } else { v }).to_bits() as u64
+                        },
+                    }
+                } else {
+                    gen_moderate_bits(r, ty, sw)
+                };
+                // one write in five forces positional or exponent notation through custom exponent breaks
+                // (power-of-two radices only: with a deep negative break the generic-radix writer of the unchanged
+                // tree prints very small values as "0." or a run of zeros — DESIGN §7.4)
+                let brk = if want_p2 && r.chance(1, 5) {
+                    Some(r.below(BREAK_POOL.len() as u64) as u8)
+                } else {
+                    None
+                };
                 return Op::WFloatR {
                     ty,
                     radix,
-                    bits: gen_moderate_bits(r, ty, sw),
+                    bits,
+                    brk,
                 };
             },
             #[cfg(any(feature = "pow2", feature = "radix"))]
@@ -1339,6 +1367,52 @@ pub fn gen_history(seed: u64, sw: &Swarm) -> Vec<Event> {
             let op = gen_op(&mut r, sw);
             issued.push(op.clone());
             ev.push(Event::UnwindCall {
+                t,
+                op,
+            });
+        } else if !issued.is_empty() && r.chance(1, 25) {
+            // an earlier input again with one digit in the middle changed: same buffer, same length, same head
+            // and tail — whatever remembered the earlier record must not answer for this one
+            let base = issued[r.below(issued.len() as u64) as usize].clone();
+            let mutate = |r: &mut Rng, text: &[u8]| -> Option<Vec<u8>> {
+                if text.len() < 12 {
+                    return None;
+                }
+                let lo = text.len() / 3;
+                let hi = text.len() - text.len() / 3;
+                let cands: Vec<usize> = (lo..hi).filter(|&i| text[i].is_ascii_digit()).collect();
+                if cands.is_empty() {
+                    return None;
+                }
+                let i = *r.pick(&cands);
+                let mut t = text.to_vec();
+                t[i] = b'0' + ((t[i] - b'0') + 1 + r.below(8) as u8) % 10;
+                Some(t)
+            };
+            let op = match &base {
+                Op::PFloat {
+                    ty,
+                    text,
+                    ..
+                } => mutate(&mut r, text).map(|t| Op::PFloat {
+                    ty: *ty,
+                    text: t,
+                    expect: None,
+                }),
+                Op::PInt {
+                    ty,
+                    radix: 10,
+                    text,
+                } => mutate(&mut r, text).map(|t| Op::PInt {
+                    ty: *ty,
+                    radix: 10,
+                    text: t,
+                }),
+                _ => None,
+            };
+            let op = op.unwrap_or(base);
+            issued.push(op.clone());
+            ev.push(Event::Exec {
                 t,
                 op,
             });
